@@ -136,7 +136,24 @@ theorem len_is_member_count (H : List Nat → Nat) {R P : Int} {r0 : Ring V}
   intro k
   rw [mem_liveKeys, live_eq_memberMap H h0]
 
+/-! ### `uint32(i)` in `saltedHash` -/
+
+/-- `saltedHash(key, i)` encodes `uint32(i)`: indices that differ by a multiple
+of 2^32 hash identically (replica / probe `i` and `i + 2^32` would share a ring
+position). The model carries this truncation (`le32`), so every theorem above
+holds for ALL replica and probe counts, not only those below 2^32. -/
+theorem saltedHash_uint32_truncation (H : List Nat → Nat) (key : Key) (i : Nat) :
+    saltedHash H key i = saltedHash H key (i % 2 ^ 32) := by
+  have : le32 (i % 2 ^ 32) = le32 i := by
+    simp only [le32, List.cons.injEq, and_true]
+    refine ⟨by omega, by omega, by omega, by omega⟩
+  simp only [saltedHash, this]
+
+example : saltedHash (fun b => b.sum) [97] (2 ^ 32 + 5) = saltedHash (fun b => b.sum) [97] 5 := by
+  decide
+
 /-! ### Non-vacuity -/
+
 
 /-- `New` succeeds for replicas, probes ≥ 1 (and only then). -/
 example : ∃ r0 : Ring Nat, Ring.new 100 1 = some r0 := ⟨_, rfl⟩
